@@ -480,10 +480,13 @@ class TShift:
         err = np.abs(at.T(W, dr) - np.exp(-1j * G @ dr)[:, None] * W).max()
         at2 = native_atoms(Nk=2, Nspin=2)
         Wl = [rnd(rng, 2, len(at2.Gk2c[ik]), 2) for ik in range(at2.kpts.Nk)]
-        out = at2.T(Wl, dr)
-        for ik in range(at2.kpts.Nk):
-            Gk = np.asarray(at2.G)[at2.active[ik]] + np.asarray(at2.kpts.k[ik])
-            err = max(err, np.abs(np.asarray(out[ik]) - np.exp(-1j * Gk @ dr)[None, :, None] * Wl[ik]).max())
+        a2 = np.asarray(at2.a)
+        # "exactly the given vector": also shifts longer than half a cell, a whole lattice vector (a Bloch function picks up exp(-i k.R)) and several cells
+        for d in (dr, 0.7 * a2[0] + 0.6 * a2[2], a2[1], -1.3 * a2[0] + 2.4 * a2[1] + 0.1 * a2[2]):
+            out = at2.T(Wl, d)
+            for ik in range(at2.kpts.Nk):
+                Gk = np.asarray(at2.G)[at2.active[ik]] + np.asarray(at2.kpts.k[ik])
+                err = max(err, np.abs(np.asarray(out[ik]) - np.exp(-1j * Gk @ d)[None, :, None] * Wl[ik]).max())
         return bool(err > 1e-10), dict(max_abs_err=float(err))
 
 
